@@ -120,14 +120,7 @@ Definition store_ok (s : store) : bool :=
   forallb (fun hr => res_ok (snd hr)) (live_items (ress s))
   && forallb (fun ha => forallb (leaf_ok s) (a_leaves (snd ha))) (live_items (anns s)).
 
-(** known finding: an annotation whose target is a complex selector without any sub-selector
-    (annotate() accepts MultiSelector([])) is saved as a row the reader refuses *)
-Definition Known_C15_empty_complex (s : store) : bool :=
-  existsb (fun ha => negb (Nat.eqb (a_kind (snd ha)) 0) && match a_leaves (snd ha) with [] => true | _ => false end)
-          (live_items (anns s)).
-
-Definition known_class (s : store) : nat :=
-  if Known_C15_tempid s then 1 else if Known_C15_empty_complex s then 2 else 0.
+Definition known_class (s : store) : nat := if Known_C15_tempid s then 1 else 0.
 
 (* the selector kinds of the API (0 simple, 1 Multi, 2 Composite, 3 Directional); a simple target
    is one selector *)
